@@ -23,6 +23,7 @@ EXPLANATION = (
     "are evaluated on the four header literals the writer uses. maximum_pdu_size must return the "
     "peer's limit for both roles. Byte equality of reassembly for all lengths follows from the "
     "slicing arithmetic, which is matched structurally rather than proved."
+    " Second session: reader-complete - every iteration of P_DATA_TF's item loops hands on the PDV item it framed (a zero-length last fragment keeps its 'last' bit)."
 )
 
 FQ = "dimse_messages.DIMSEMessage"
